@@ -374,6 +374,27 @@ def _corpus_families(big):
         out.append({"factors": [c, t], "block": {"k": "repeat", "b": inner2,
                     "cs": [{"k": "MinimumTrials", "n": 6}, {"k": "AtMostKInARow", "n": k, "f": 1, "l": 0}]}})
     out.mark()
+    # several MinimumTrials on one block (the largest counts, whatever the order), also on a Repeat and its block
+    m2a, m2b = _sf(0, ["r", "g"]), _sf(1, ["x", "y"])
+    for ns in ([10, 6], [6, 10], [9, 2], [5, 7, 3]):
+        out.append({"factors": [m2a, m2b], "block": {"k": "cross", "design": [0, 1], "crossing": [0, 1], "rcc": True,
+                    "cs": [{"k": "MinimumTrials", "n": n} for n in ns]}})
+    out.append({"factors": [m2a, m2b], "block": {"k": "repeat", "cs": [{"k": "MinimumTrials", "n": 5}],
+                "b": {"k": "cross", "design": [0, 1], "crossing": [0, 1], "rcc": True, "cs": [{"k": "MinimumTrials", "n": 12}]}}})
+    out.append({"factors": [m2a, m2b], "block": {"k": "repeat", "cs": [{"k": "MinimumTrials", "n": 12}, {"k": "MinimumTrials", "n": 8}],
+                "b": {"k": "cross", "design": [0, 1], "crossing": [0, 1], "rcc": True, "cs": []}}})
+    out.mark()
+    # a weighted ElseLevel in a crossed within-trial factor (the else level's weight counts in the crossing size)
+    ec, es = _sf(0, ["red", "blue"]), _sf(1, ["big", "small"])
+    bold_t = [0] * 9
+    bold_t[1 * 3 + 1] = 1
+    for we in (2, 3):
+        look = {"id": 2, "name": "f2", "window": {"deps": [0, 1], "width": 1, "stride": 1, "start": None, "kind": "within"},
+                "levels": [{"name": "bold", "w": 1, "table": bold_t},
+                           {"name": "plain", "w": we, "table": [1 - x for x in bold_t], "else": True}]}
+        out.append({"factors": [ec, es, look], "block": {"k": "cross", "design": [0, 1, 2], "crossing": [2], "rcc": True, "cs": []}})
+        out.append({"factors": [ec, es, look], "block": {"k": "cross", "design": [0, 1, 2], "crossing": [0, 2], "rcc": False, "cs": []}})
+    out.mark()
     # Sequential on a crossed factor: alone, with MinimumTrials (partial last cycle), with another crossed factor,
     # under Repeat
     s3, s2 = _sf(0, ["c1", "c2", "c3"]), _sf(1, ["x", "y"])
